@@ -186,7 +186,7 @@ class Harness:
     """A running `harness replay` process fed through its stdin."""
 
     def __init__(self, work, prop, systems, opts="", seed=1, thorough=False, small=False, keys="plain",
-                 reopen=False, workers=16, tag="r", addr="", memtrace=None):
+                 reopen=False, workers=16, tag="r", addr="", memtrace=None, large=False):
         self.out = work.path("sum.%s.json" % tag)
         cmd = [HARNESS, "replay", "--property", prop, "--systems", ",".join(systems), "--opts", opts,
                "--seed", str(seed), "--keys", keys, "--workers", str(workers), "--out", self.out,
@@ -196,6 +196,8 @@ class Harness:
             cmd.append("--thorough")
         if small:
             cmd.append("--small")
+        if large:
+            cmd.append("--large")
         if reopen:
             cmd.append("--reopen")
         if addr:
@@ -344,7 +346,7 @@ def findings_descriptions():
 
 def tour_stage(rep, work, name, module, constants, systems, opts="", keys="plain", thorough=False, small=False,
                reopen=False, invariants=(), properties=(), timeout=1800, heap="4g", view="View", emit="Emit",
-               simulate=None, hworkers=16, tlc_workers=1, addr="", memtrace=False):
+               simulate=None, hworkers=16, tlc_workers=1, addr="", memtrace=False, large=False):
     """One TLC run whose emitted tours are replayed on `systems`.  `emit` names
     the ACTION_CONSTRAINT that prints tours (transition tours); modules that
     enumerate cases as initial states print from an invariant instead
@@ -356,7 +358,7 @@ def tour_stage(rep, work, name, module, constants, systems, opts="", keys="plain
     if memtrace:
         mtdir = tempfile.mkdtemp(prefix="memtrace.", dir=work.dir)
     h = Harness(work, rep.prop, systems, opts=opts, seed=rep.seed, thorough=thorough, small=small, keys=keys,
-                reopen=reopen, workers=hworkers, tag=re.sub(r"\W", "_", name), addr=addr, memtrace=mtdir)
+                reopen=reopen, workers=hworkers, tag=re.sub(r"\W", "_", name), addr=addr, memtrace=mtdir, large=large)
     try:
         res = run_tlc(work, module + ".tla", cfgfile, sink=h.stdin, workers=tlc_workers, timeout=timeout, heap=heap,
                       simulate=simulate)
@@ -682,6 +684,78 @@ def walk_stage(rep, work, name, module, constants, systems, kind, opts="", invar
     return summ
 
 
+def scale_stage(rep, work, name, kind, systems, n=1005, timeout=1800):
+    """Stores with more than 1000 entries (the server's default page limits come into play), built by the harness
+    itself, walked with the server's continuation; the recorded walks are validated by TraceWalk."""
+    import hashlib
+    tag = re.sub(r"\W", "_", name)
+    trace = work.path("scale.%s.ndjson" % tag)
+    out = work.path("scale.%s.json" % tag)
+    cmd = [HARNESS, "scale", "--kind", kind, "--systems", ",".join(systems), "--n", str(n), "--seed", str(rep.seed),
+           "--trace", trace, "--out", out]
+    p = subprocess.run(cmd, capture_output=True, text=True, timeout=timeout)
+    if p.returncode != 0 or not os.path.exists(out):
+        raise Infra("harness scale failed (rc=%s):\n%s" % (p.returncode, p.stderr[-3000:]))
+    with open(out) as f:
+        summ = json.load(f)
+    for pr in summ.get("problems") or []:
+        rp = os.path.join(OUT, "replays", rep.prop + "-scale-%s.txt" % hashlib.sha1(pr.encode()).hexdigest()[:16])
+        os.makedirs(os.path.dirname(rp), exist_ok=True)
+        with open(rp, "w") as f:
+            f.write(pr)
+        rep.violations.append((rp, "building a store of %d entries failed: %s" % (n, pr)))
+    rejected = []
+    vr = TLCResult()
+    cur = trace
+    for attempt in range(12):
+        if not os.path.exists(cur) or os.path.getsize(cur) == 0:
+            break
+        ok, at, res = validate_trace(work, "TraceWalk", cur, timeout=timeout, heap="8g")
+        vr.distinct += res.distinct
+        vr.generated += res.generated
+        if ok:
+            break
+        walks = split_walks(cur)
+        badw = None
+        for first, lines in walks:
+            if first <= at < first + len(lines):
+                badw = (first, lines)
+        if badw is None:
+            badw = walks[-1]
+        rejected.append((badw[1], at - badw[0]))
+        nxt = work.path("scale.%s.%d.ndjson" % (tag, attempt))
+        with open(nxt, "w") as f:
+            for first, lines in walks:
+                if first != badw[0]:
+                    f.writelines(lines)
+        cur = nxt
+    rep.add_tlc(name, vr)
+    rep.traces += summ["walks"] - len(rejected)
+    rep.stages.append({"stage": name, "kind": kind, "entries": n, "walks": summ["walks"], "events": summ["events"],
+                       "systems": list(systems), "rejected": len(rejected)})
+    for lines, off in rejected:
+        start = json.loads(lines[0])
+        pages = [json.loads(x) for x in lines[1:]]
+        desc = "%s walk over %d+ entries (%s, max=%d, prefix=%s, delim=%s) on %s rejected at its event %d: pages %s" % (
+            start.get("kind"), n, start.get("style"), start.get("max"), bytes(start.get("prefix") or []).decode("utf-8", "replace"),
+            bytes(start.get("delim") or []).decode("utf-8", "replace"), start.get("sys"), off,
+            json.dumps([(len(pg.get("ents") or []), len(pg.get("prefixes") or []), pg.get("trunc"), pg.get("note", "")) for pg in pages if pg["t"] == "page"])[:300])
+        fid = classify(rep.prop, start.get("sys", ""), "Walk:" + str(start.get("kind")), desc)
+        if fid:
+            rep.known[fid] = rep.known.get(fid, 0) + 1
+            continue
+        # the replay keeps the pages but not the thousand-entry store description
+        slim = dict(start, live="(%d entries, see harness scale)" % len(start.get("live") or []))
+        body = json.dumps(slim) + "\n" + "".join(lines[1:])
+        rp = os.path.join(OUT, "replays", "%s-scale-%s.txt" % (rep.prop, hashlib.sha1(body.encode()).hexdigest()[:16]))
+        os.makedirs(os.path.dirname(rp), exist_ok=True)
+        with open(rp, "w") as f:
+            f.write(body)
+        rep.violations.append((rp, desc))
+    log("stage %-28s %d walks / %d events over %d+ entries on %s; rejected %d" % (
+        name, summ["walks"], summ["events"], n, ",".join(systems), len(rejected)))
+
+
 def confirm_walk(work, kind, start, seed, opts, tours_path, maxextra, keys="plain"):
     """Re-execute the tour the rejected walk belongs to and validate again."""
     trace = work.path("confirm.ndjson")
@@ -902,7 +976,7 @@ def build_server_binary():
 
 
 def conc_stage(rep, work, name, systems, clients, runs, ops, keys, gated, race=False, witness=False, timeout=900, seq=0,
-               kill_rounds=0, partrace=0, local=False):
+               kill_rounds=0, partrace=0, local=False, big=""):
     tag = re.sub(r"\W", "_", name)
     trace = work.path("conc.%s.ndjson" % tag)
     out = work.path("conc.%s.json" % tag)
@@ -912,6 +986,8 @@ def conc_stage(rep, work, name, systems, clients, runs, ops, keys, gated, race=F
            "--trace", trace, "--out", out, "--gated=%s" % ("true" if gated else "false"), "--partrace", str(partrace)]
     if local:
         cmd += ["--single-key-mix"]
+    if big:
+        cmd += ["--big", big]     # single-client histories that cross a count or size threshold (conc.go)
     if seq:
         cmd += ["--seq", str(seq)]
     if kill_rounds:
